@@ -2,6 +2,7 @@ package main
 
 import (
 	"fmt"
+	"go/token"
 	"go/types"
 	"os"
 	"strings"
@@ -103,7 +104,11 @@ func propC14(a *Analysis, r *Registry) {
 			// the bin index used by Add: the value compared with 0
 			// the bin index: the bin helper's value at Add's own receiver and argument, whether Add
 			// calls the helper or computes the same expression itself
-			binV := X.CallFn(b.methodOf(t, "bin"), []*RF{X.ParamRF(add, 0), X.ParamRF(add, 1)})
+			binV, _, _ := c14BinOf(b, t, add)
+			if binV == nil {
+				r.Undecided("C-guard counters", addName, b.pos(add), "anchor: no bin helper and no integer compared with 0 in Add: the bin index cannot be identified")
+				return
+			}
 			env.Set("bin", binV, types.Typ[types.Int])
 			want := map[string]string{
 				"&fld:" + under: "bin<0",
@@ -170,9 +175,11 @@ func propC14(a *Analysis, r *Registry) {
 		})
 		// inverse identity BinToValue(b(x)) = x
 		b.guard("B-C14 inverse", tn, func() {
-			binFn := b.methodOf(t, "bin")
-			bfc := X.FCFor(binFn)
-			pre := bfc.RetVal(0)
+			pre, binRecv, binX := c14BinOf(b, t, add)
+			if pre == nil {
+				r.Undecided("B-C14 inverse", tn, b.pos(add), "anchor: no bin helper and no integer compared with 0 in Add: the bin index cannot be identified")
+				return
+			}
 			// strip int()/floor
 			for {
 				at := pre.SingleAtom()
@@ -187,7 +194,7 @@ func propC14(a *Analysis, r *Registry) {
 			v := vfc.RetVal(0)
 			m := map[AtomID]*RF{
 				X.ParamRF(b2v, 1).SingleAtom().ID: pre,
-				X.ParamRF(b2v, 0).SingleAtom().ID: X.ParamRF(binFn, 0),
+				X.ParamRF(b2v, 0).SingleAtom().ID: binRecv,
 			}
 			v = v.Subst(m)
 			// constructor field definitions
@@ -196,7 +203,7 @@ func propC14(a *Analysis, r *Registry) {
 				cfc := X.FCFor(ctor)
 				sub := map[AtomID]*RF{}
 				st := derefT(t).Underlying().(*types.Struct)
-				recv := X.ParamRF(binFn, 0)
+				recv := binRecv
 				// fields defined purely in terms of other fields' sources: express ctor params by fields that copy them
 				paramOf := map[AtomID]*RF{}
 				for i := 0; i < st.NumFields(); i++ {
@@ -221,7 +228,7 @@ func propC14(a *Analysis, r *Registry) {
 				v = v.Subst(sub)
 			}
 			v = expandPow(X, v)
-			b.EqRF("B-C14 inverse", tn+"/BinToValue∘bin", b.pos(b2v), v, X.ParamRF(binFn, 1), "BinToValue(pre-floor bin(x)) ≡ x with the constructor's field definitions")
+			b.EqRF("B-C14 inverse", tn+"/BinToValue∘bin", b.pos(b2v), v, binX, "BinToValue(pre-floor bin(x)) ≡ x with the constructor's field definitions")
 		})
 	}
 	// formulas
@@ -453,3 +460,44 @@ func hasAtomPrefix(r *RF, p string) bool {
 }
 
 func itoa(i int) string { return fmt.Sprint(i) }
+
+// c14BinOf returns the bin index a histogram's Add computes for its argument, with the receiver
+// and argument it is expressed in: the value of the type's bin helper when it has one, otherwise
+// the integer Add itself compares with 0 (the helper written out in Add).
+func c14BinOf(b *B, t types.Type, add *ssa.Function) (bin, recv, x *RF) {
+	X := b.X
+	if binFn := b.methodOf(t, "bin"); binFn != nil {
+		return X.CallFn(binFn, []*RF{X.ParamRF(add, 0), X.ParamRF(add, 1)}), X.ParamRF(add, 0), X.ParamRF(add, 1)
+	}
+	fc := X.FCFor(add)
+	var found ssa.Value
+	n := 0
+	fc.Ctx.Instrs(func(in ssa.Instruction) {
+		iff, ok := in.(*ssa.If)
+		if !ok {
+			return
+		}
+		bo, ok := iff.Cond.(*ssa.BinOp)
+		if !ok {
+			return
+		}
+		c, ok := bo.Y.(*ssa.Const)
+		if !ok || c.Value == nil || c.Int64() != 0 {
+			return
+		}
+		if bt, ok := bo.X.Type().Underlying().(*types.Basic); !ok || bt.Kind() != types.Int {
+			return
+		}
+		switch bo.Op {
+		case token.LSS, token.GEQ:
+			if found != bo.X {
+				found = bo.X
+				n++
+			}
+		}
+	})
+	if n != 1 {
+		return nil, nil, nil
+	}
+	return fc.Val(found), X.ParamRF(add, 0), X.ParamRF(add, 1)
+}
